@@ -139,3 +139,17 @@ Proof.
     | exists (["m"; "purpose'"; "coin_type'"; "account'"; "change"; "address_index"]%string, 84, "bech32"%string) ];
     (split; [tauto | reflexivity]).
 Qed.
+
+(* ------------------------------------------------------------------ the guards of keys_for_path / new_account *)
+(* frozen: a wallet may serve another witness type (another purpose branch) only from a PRIVATE main key of DEPTH 0;
+   new accounts (hardened children two levels below the purpose key) need the same *)
+Definition spec_kfp_witness_guard (has_main is_private depth0 wt_differs multisig : bool) : bool :=
+  (negb has_main || negb is_private || negb depth0) && wt_differs && negb multisig.
+Definition spec_new_account_guard (has_main is_private depth0 : bool) : bool :=
+  has_main && (negb depth0 || negb is_private).
+
+Lemma kfp_witness_guard_frozen : forall a b c d e, kfp_witness_guard a b c d e = spec_kfp_witness_guard a b c d e.
+Proof. intros [] [] [] [] []; reflexivity. Qed.
+
+Lemma new_account_guard_frozen : forall a b c d e, new_account_guard a b c d e = spec_new_account_guard a b c.
+Proof. intros [] [] [] [] []; reflexivity. Qed.
